@@ -787,6 +787,98 @@ def _split_isinstance_handlers(tree: ast.Module) -> None:
     _H().visit(tree)
 
 
+def _expand_dict_dispatch(tree: ast.Module) -> None:
+    """`if KEY in TABLE: ... TABLE[KEY](a, b) ...` with TABLE a module-level dict display keyed by enum members / constants
+    (<= 12 entries) is read as the if / elif chain over its keys that it abbreviates: one copy of the body per key with
+    `TABLE[KEY]` replaced by that key's value, lambda values beta-reduced.  Nothing is decided here."""
+    import copy
+    tables: Dict[str, ast.Dict] = {}
+    counts: Dict[str, int] = {}
+    for st in tree.body:
+        tg, val = None, None
+        if isinstance(st, ast.Assign) and len(st.targets) == 1 and isinstance(st.targets[0], ast.Name):
+            tg, val = st.targets[0].id, st.value
+        elif isinstance(st, ast.AnnAssign) and isinstance(st.target, ast.Name) and st.value is not None:
+            tg, val = st.target.id, st.value
+        if tg is None:
+            continue
+        counts[tg] = counts.get(tg, 0) + 1
+        if isinstance(val, ast.Dict) and 1 <= len(val.keys) <= 12 and all(
+                k is not None and (isinstance(k, ast.Constant) or (isinstance(k, ast.Attribute) and dotted(k))) for k in val.keys):
+            tables[tg] = val
+    tables = {k: v for k, v in tables.items() if counts.get(k) == 1}
+    if not tables:
+        return
+
+    def atom(e: ast.AST) -> bool:
+        return isinstance(e, (ast.Constant, ast.Name)) or (isinstance(e, ast.Attribute) and atom(e.value))
+
+    class _Beta(ast.NodeTransformer):
+        def visit_Call(self, node):  # type: ignore[no-untyped-def]
+            self.generic_visit(node)
+            f_ = node.func
+            if isinstance(f_, ast.Lambda) and not node.keywords and not f_.args.vararg and not f_.args.kwarg and not f_.args.kwonlyargs \
+                    and not f_.args.defaults and len(f_.args.args) == len(node.args) and all(atom(a) for a in node.args):
+                env = {p.arg: a for p, a in zip(f_.args.args, node.args)}
+
+                class _S(ast.NodeTransformer):
+                    def visit_Name(s_, x):  # type: ignore[no-untyped-def]  # noqa: N805
+                        if isinstance(x.ctx, ast.Load) and x.id in env:
+                            return ast.copy_location(copy.deepcopy(env[x.id]), x)
+                        return x
+
+                    def visit_Lambda(s_, x):  # type: ignore[no-untyped-def]  # noqa: N805
+                        return x
+                return ast.copy_location(_S().visit(copy.deepcopy(f_.body)), node)
+            return node
+
+    class _T(ast.NodeTransformer):
+        depth = 0
+
+        def visit_FunctionDef(self, node):  # type: ignore[no-untyped-def]
+            self.depth += 1
+            self.generic_visit(node)
+            self.depth -= 1
+            return node
+
+        visit_AsyncFunctionDef = visit_FunctionDef
+
+        def visit_If(self, node):  # type: ignore[no-untyped-def]
+            self.generic_visit(node)
+            t = node.test
+            if not (self.depth and isinstance(t, ast.Compare) and len(t.ops) == 1 and isinstance(t.ops[0], ast.In)
+                    and isinstance(t.comparators[0], ast.Name) and t.comparators[0].id in tables and atom(t.left)):
+                return node
+            tname, key = t.comparators[0].id, t.left
+            ktxt = ast.dump(key)
+            tbl = tables[tname]
+            # inside the body the table is only ever used as TABLE[KEY]
+            uses = [x for st in node.body for x in ast.walk(st) if isinstance(x, ast.Name) and x.id == tname]
+            subs = [x for st in node.body for x in ast.walk(st) if isinstance(x, ast.Subscript) and isinstance(x.value, ast.Name)
+                    and x.value.id == tname and ast.dump(x.slice) == ktxt and isinstance(x.ctx, ast.Load)]
+            if not subs or len(uses) != len(subs):
+                return node
+            if any(isinstance(x, ast.Name) and not isinstance(x.ctx, ast.Load) and x.id in {y.id for y in ast.walk(key) if isinstance(y, ast.Name)}
+                   for st in node.body for x in ast.walk(st)):
+                return node
+            chain = list(node.orelse)
+            for k, v in reversed(list(zip(tbl.keys, tbl.values))):
+                class _S(ast.NodeTransformer):
+                    def visit_Subscript(s_, x):  # type: ignore[no-untyped-def]  # noqa: N805
+                        if isinstance(x.value, ast.Name) and x.value.id == tname and ast.dump(x.slice) == ktxt and isinstance(x.ctx, ast.Load):
+                            return ast.copy_location(copy.deepcopy(v), x)
+                        s_.generic_visit(x)
+                        return x
+                body = [_Beta().visit(_S().visit(copy.deepcopy(st))) for st in node.body]
+                test = ast.Compare(left=copy.deepcopy(key), ops=[ast.Eq()], comparators=[copy.deepcopy(k)])
+                chain = [ast.copy_location(ast.If(test=test, body=body, orelse=chain), node)]
+            for x in chain:
+                ast.fix_missing_locations(x)
+            return chain[0] if len(chain) == 1 else chain
+
+    _T().visit(tree)
+
+
 def _specialise_constant_dispatch(tree: ast.Module, modname: str, known: Optional[set]) -> None:
     """A private helper introduced after the rules were written that DISPATCHES on a string parameter -
     `getattr(client, request)(...)`, `TABLE[request]` - and is only ever called with string literals for it
@@ -1126,6 +1218,7 @@ class Program:
             _desugar_match(tree)
             _plain_local_assignments(tree)
             _unroll_table_loops(tree)
+            _expand_dict_dispatch(tree)
             _split_isinstance_handlers(tree)
             _literal_tables(tree)
             _record_field_aliases(tree, records)
